@@ -6,7 +6,10 @@
 //!   sj <base> <name>        none | some <path> <flags> <comps>      (the hook `verif_hooks::safe_join`)
 //!   push <path> <seg>       <path>                                  (std `PathBuf::push`)
 //!   comps <path>            <flags> <comps>                         (std `Path::components`)
-//!   ld <variant> <name>     v:<via>;get=<r>;include=<r>;import=<r>;from=<r>;extends=<r>;inclist=<r>;joincb=<r>
+//!   ld <variant> <name>     v:<via>;d=<disk>;get=<r>;include=<r>;import=<r>;from=<r>;extends=<r>;inclist=<r>;joincb=<r>;
+//!                           fn=<r>;macro=<r>;nested=<r>
+//!   tl <variant> <name>     <r>        (Environment::templates() of the `get` environment)
+//!   lc / lct / lcclear      the loader-lifecycle stream, see `run_lifecycle`
 //!
 //! `flags` = `R`/`r` (RootDir component or not) + `C`/`c` (leading CurDir component or not);
 //! `comps` = the Normal/ParentDir components, comma-joined.
@@ -188,6 +191,7 @@ fn build_tree() -> Tree {
     let base = p4.join("base");
     let mut none = vec![];
     populate(&base, 4, 'B', &mut none);
+    fs::write(base.join("inc"), "{% include name %}").unwrap();
     std::env::set_current_dir(&p4).unwrap();
     Tree { root, p4, base, chain, canaries }
 }
@@ -292,7 +296,7 @@ fn classify_err(e: &minijinja::Error) -> String {
     }
 }
 
-const FORMS: [(&str, &str); 7] = [
+const FORMS: [(&str, &str); 10] = [
     ("get", ""),
     ("include", "{% include name %}"),
     ("import", "{% import name as m %}{{ m.tag }}"),
@@ -300,7 +304,68 @@ const FORMS: [(&str, &str); 7] = [
     ("extends", "{% extends name %}"),
     ("inclist", "{% include [name, name] ignore missing %}"),
     ("joincb", "{% include name %}"),
+    // `State::get_template` called from a function of the host
+    ("fn", "{{ load(name) }}"),
+    // the include sits in a macro body
+    ("macro", "{% macro m(n) %}{% include n %}{% endmacro %}{{ m(name) }}"),
+    // the include sits in a template that itself came from the loader (`inc` = `{% include name %}`)
+    ("nested", "{% include \"inc\" %}"),
 ];
+
+/// name of the including template in the join-callback form
+const CB_PARENT: &str = "a/a/drv";
+
+/// the callback from the documentation of `set_path_join_callback`
+fn doc_join(name: &str, parent: &str) -> String {
+    let mut rv = parent.split('/').collect::<Vec<_>>();
+    rv.pop();
+    name.split('/').for_each(|segment| match segment {
+        "." => {}
+        ".." => {
+            rv.pop();
+        }
+        _ => {
+            rv.push(segment);
+        }
+    });
+    rv.join("/")
+}
+
+/// a fresh environment whose loader is the REAL `path_loader(base)`, constructed now
+fn make_env(base: &Path, form: &str) -> Environment<'static> {
+    let mut env = Environment::new();
+    env.set_loader(path_loader(base));
+    if form == "joincb" {
+        env.set_path_join_callback(|name, parent| Cow::Owned(doc_join(name, parent)));
+    }
+    if form == "fn" {
+        env.add_function("load", |state: &minijinja::State, name: &str| -> Result<String, minijinja::Error> {
+            state.get_template(name).map(|t| t.source().to_string())
+        });
+    }
+    env
+}
+
+fn run_form(env: &Environment<'_>, form: &str, src: &str, name: &str) -> String {
+    let r = guarded(|| {
+        if form == "get" {
+            match env.get_template(name) {
+                Ok(t) => classify_text(t.source(), false),
+                Err(e) => classify_err(&e),
+            }
+        } else {
+            let drv = if form == "joincb" { CB_PARENT } else { "<drv>" };
+            match env.render_named_str(drv, src, context! { name => name }) {
+                Ok(out) => classify_text(&out, form == "inclist"),
+                Err(e) => classify_err(&e),
+            }
+        }
+    });
+    match r {
+        Ok(r) => r,
+        Err(m) => format!("panic:{}", pct(m.as_bytes())),
+    }
+}
 
 struct Loaders {
     /// one environment per (variant, form) so that no form is answered from another one's cache
@@ -310,29 +375,7 @@ struct Loaders {
 fn make_loaders(t: &Tree) -> Loaders {
     let mut envs = vec![];
     for (vname, base) in variants(t) {
-        let mut per_form = vec![];
-        for (form, _) in FORMS {
-            let mut env = Environment::new();
-            env.set_loader(path_loader(&base));
-            if form == "joincb" {
-                // the callback from the documentation of `set_path_join_callback`
-                env.set_path_join_callback(|name, parent| {
-                    let mut rv = parent.split('/').collect::<Vec<_>>();
-                    rv.pop();
-                    name.split('/').for_each(|segment| match segment {
-                        "." => {}
-                        ".." => {
-                            rv.pop();
-                        }
-                        _ => {
-                            rv.push(segment);
-                        }
-                    });
-                    Cow::Owned(rv.join("/"))
-                });
-            }
-            per_form.push(env);
-        }
+        let per_form = FORMS.iter().map(|(form, _)| make_env(&base, form)).collect();
         envs.push((vname.to_string(), base, per_form));
     }
     Loaders { envs }
@@ -349,30 +392,248 @@ fn run_ld(l: &Loaders, variant: &str, name: &str) -> String {
         },
         _ => "-".into(),
     };
-    let mut parts = vec![format!("v:{}", via)];
+    // what `fs::read_to_string` answers at the path the hook designates, asked by the harness
+    // itself: `-` NotFound (or no path), `!` another error, `+` content
+    let disk = match guarded(|| safe_join(base, name)) {
+        Ok(Some(p)) => match disk_answer(&p).as_str() {
+            "-" => "-",
+            "!" => "!",
+            _ => "+",
+        },
+        _ => "-",
+    };
+    let mut parts = vec![format!("v:{}", via), format!("d={}", disk)];
     for (i, (form, src)) in FORMS.iter().enumerate() {
-        let env = &envs[i];
-        let r = guarded(|| {
-            if *form == "get" {
-                match env.get_template(name) {
-                    Ok(t) => classify_text(t.source(), false),
-                    Err(e) => classify_err(&e),
-                }
-            } else {
-                let drv = if *form == "joincb" { "a/a/drv" } else { "<drv>" };
-                match env.render_named_str(drv, src, context! { name => name }) {
-                    Ok(out) => classify_text(&out, *form == "inclist"),
-                    Err(e) => classify_err(&e),
-                }
-            }
-        });
-        let r = match r {
-            Ok(r) => r,
-            Err(m) => format!("panic:{}", pct(m.as_bytes())),
-        };
-        parts.push(format!("{}={}", form, r));
+        parts.push(format!("{}={}", form, run_form(&envs[i], form, src, name)));
     }
     parts.join(";")
+}
+
+/// `Environment::templates()` of the `get` environments: `tl <variant> <name>\t<markers>`
+fn run_tl(l: &Loaders, out: &mut dyn Write) {
+    for (vname, _, envs) in &l.envs {
+        let mut rows: Vec<(String, String)> =
+            envs[0].templates().map(|(n, t)| (pct(n.as_bytes()), classify_text(t.source(), false))).collect();
+        rows.sort();
+        for (n, r) in rows {
+            writeln!(out, "tl {} {}\t{}", vname, n, r).unwrap();
+        }
+    }
+}
+
+// ------------------------------------------------------------------------------------ lifecycle
+//
+// The loader is a value with a life: it is constructed at one moment and asked at later ones, and
+// the disk and the working directory change in between.  `lc` lines:
+//
+//   #lcbase <scenario> <spelling> <configured base>
+//   lc <scenario> <phase> <spelling> <name>\tcwd=<dir>;bc=<canonical base at construction|->;
+//        bl=<canonical base now|->;v=<hook path>|<disk>;vj=<joined name>|<hook path>|<disk>;<form>=<r>;…
+//   lct <scenario> <phase> <spelling>\t<name>=<r>;…          (Environment::templates of the `get` env)
+//
+// `<disk>` = what `fs::read_to_string(hook path)` answers at that moment, asked by the harness
+// itself: `-` NotFound, `!` another error, else the markers of the content.
+
+const LC_SCENARIOS: [(&str, &[&str]); 10] = [
+    ("clear", &["cd L", "mk", "build", "load", "rm", "clear", "load", "mk", "load"]),
+    ("exists", &["cd L", "mk", "build", "load"]),
+    ("created-after", &["cd L", "build", "load", "mk", "load"]),
+    ("absent", &["cd L", "build", "load"]),
+    ("rm-recreate", &["cd L", "mk", "build", "load", "rm", "load", "mk", "load"]),
+    ("removed", &["cd L", "mk", "build", "rm", "load"]),
+    ("chdir", &["cd L", "mk", "build", "load", "cd other", "load", "cd L", "load"]),
+    ("chdir-late", &["cd other2", "mk", "build", "load", "cd L", "load"]),
+    ("chdir-created", &["cd other2", "build", "cd L", "mk", "load", "cd other", "load"]),
+    ("empty", &["mk", "cd T", "build", "load", "cd L", "load"]),
+];
+
+const LC_SPELLINGS: [(&str, &str); 7] = [
+    ("abs", "{L}/site/templates"),
+    ("abs/", "{L}/site/templates/"),
+    ("abs/.", "{L}/site/templates/."),
+    ("abs-dd", "{L}/site/../site/templates"),
+    ("rel", "site/templates"),
+    ("./rel/", "./site/templates/"),
+    ("rel-dd", "site/../site/templates"),
+];
+const LC_EMPTY_SPELLINGS: [(&str, &str); 2] = [("empty", ""), ("dot", ".")];
+
+/// files a working directory of the process holds (all of them outside every base, except that
+/// in the `empty` scenario the working directory IS the base)
+const CWD_FILES: [&str; 9] = [
+    "only_cwd.txt", "a.", "a/a.", "index.txt", "etc/passwd", "secret.txt", "site/secret.txt", "site/only_site.txt", "inc",
+];
+const BASE_FILES: [&str; 5] = ["a.", "a/a.", "index.txt", "only_inside.txt", "sub/deep/x.txt"];
+
+fn lc_write(path: &Path, kind: char) {
+    fs::create_dir_all(path.parent().unwrap()).unwrap();
+    let m = marker(kind, path);
+    fs::write(path, format!("{m}{{% set tag = \"{m}\" %}}")).unwrap();
+}
+
+fn lc_mk_base(base: &Path) {
+    for f in BASE_FILES {
+        lc_write(&base.join(f), 'B');
+    }
+    fs::write(base.join("inc"), "{% include name %}").unwrap();
+}
+
+fn lc_names(l: &Path, root: &Path) -> Vec<String> {
+    let mut v: Vec<String> = [
+        // beneath the base
+        "a.", "a/a.", "index.txt", "/a.", "a//a.", "only_inside.txt", "sub/deep/x.txt", "deep/x.txt", "x.txt",
+        // relative to a working directory / to directories above the base
+        "only_cwd.txt", "/only_cwd.txt", "etc/passwd", "/etc/passwd", "secret.txt", "site/secret.txt",
+        "site/only_site.txt", "only_site.txt", "site/templates/a.", "templates/a.", "site/templates/only_inside.txt",
+        "other/only_cwd.txt", "only_other.txt", "only_lc.txt", "only_outside.txt", "only_root.txt",
+        // classic
+        "../only_site.txt", "../secret.txt", "..", ".", "a/../../only_site.txt", "", "/", "a", "a/", "a./", "nope.txt",
+    ]
+    .iter()
+    .map(|s| s.to_string())
+    .collect();
+    for abs in [l.join("only_cwd.txt"), l.join("site").join("secret.txt"), root.join("only_root.txt"), l.join("site/templates/a.")] {
+        let a = abs.to_str().unwrap().to_string();
+        v.push(format!("/{a}"));
+        v.push(a);
+    }
+    v
+}
+
+fn disk_answer(p: &Path) -> String {
+    match fs::read_to_string(p) {
+        Ok(text) => {
+            let ms = markers(&text);
+            if ms.is_empty() {
+                "?".into()
+            } else {
+                ms.join("+")
+            }
+        }
+        Err(e) if e.kind() == std::io::ErrorKind::NotFound => "-".into(),
+        Err(_) => "!".into(),
+    }
+}
+
+fn hook_and_disk(base: &Path, name: &str) -> String {
+    match guarded(|| safe_join(base, name)) {
+        Ok(Some(p)) => format!("{}|{}", pct(p.as_os_str().as_bytes()), disk_answer(&p)),
+        _ => "|".into(),
+    }
+}
+
+fn canon_or_dash(cwd_relative: &Path) -> String {
+    let p = if cwd_relative.as_os_str().is_empty() { Path::new(".") } else { cwd_relative };
+    match fs::canonicalize(p) {
+        Ok(c) => tilde(c.as_os_str().as_bytes()),
+        Err(_) => "-".into(),
+    }
+}
+
+fn run_lifecycle(t: &Tree, out: &mut dyn Write, only: Option<(&str, &str, &str)>) {
+    use minijinja_autoreload::AutoReloader;
+    let l = t.root.join("lc");
+    let names = lc_names(&l, &t.root);
+    for (scn, ops) in LC_SCENARIOS {
+        let spellings: &[(&str, &str)] = if scn == "empty" { &LC_EMPTY_SPELLINGS } else { &LC_SPELLINGS };
+        for (sp, pat) in spellings {
+            if let Some((s, p, _)) = only {
+                if s != scn || p != *sp {
+                    continue;
+                }
+            }
+            // a fresh disk: canaries in every directory the process will ever stand in or above
+            std::env::set_current_dir(&t.root).unwrap();
+            let _ = fs::remove_dir_all(&l);
+            for dir in [l.clone(), l.join("other"), l.join("other2"), l.join("site")] {
+                for f in CWD_FILES {
+                    lc_write(&dir.join(f), 'C');
+                }
+            }
+            lc_write(&l.join("only_lc.txt"), 'C');
+            lc_write(&l.join("other").join("only_other.txt"), 'C');
+            // seen from `other`, the relative spellings of the base name this directory
+            lc_mk_base(&l.join("other").join("site").join("templates"));
+            let abs_base = l.join("site").join("templates");
+            let base_str = pat.replace("{L}", l.to_str().unwrap());
+            let base = PathBuf::from(&base_str);
+            writeln!(out, "#lcbase {} {} {}", scn, sp, pct(base_str.as_bytes())).unwrap();
+            let mut envs: Vec<Environment<'static>> = vec![];
+            let mut reloaders: Vec<AutoReloader> = vec![];
+            let mut bc = "-".to_string();
+            let mut phase = 0;
+            for op in ops.iter() {
+                match *op {
+                    "cd L" => std::env::set_current_dir(&l).unwrap(),
+                    "cd other" => std::env::set_current_dir(l.join("other")).unwrap(),
+                    "cd other2" => std::env::set_current_dir(l.join("other2")).unwrap(),
+                    "cd T" => std::env::set_current_dir(&abs_base).unwrap(),
+                    "mk" => lc_mk_base(&abs_base),
+                    "rm" => fs::remove_dir_all(&abs_base).unwrap(),
+                    "clear" => {
+                        // `Environment::clear_templates`; the reloaders rebuild their environment instead
+                        envs.iter_mut().for_each(|e| e.clear_templates());
+                        reloaders.iter().for_each(|r| r.notifier().request_reload());
+                        writeln!(out, "lcclear {} {} {}\t-", scn, phase + 1, sp).unwrap();
+                    }
+                    "build" => {
+                        bc = canon_or_dash(&base);
+                        envs = FORMS.iter().map(|(form, _)| make_env(&base, form)).collect();
+                        for _ in 0..2 {
+                            let b = base.clone();
+                            let r = AutoReloader::new(move |_| Ok(make_env(&b, "get")));
+                            let _ = r.acquire_env().map(|_| ()); // the environment (and its loader) exists from now on
+                            reloaders.push(r);
+                        }
+                    }
+                    "load" => {
+                        phase += 1;
+                        // the second reloader is told to rebuild its environment before every phase
+                        reloaders[1].notifier().request_reload();
+                        let cwd = tilde(std::env::current_dir().unwrap().as_os_str().as_bytes());
+                        let bl = canon_or_dash(&base);
+                        for name in &names {
+                            if let Some((_, _, n)) = only {
+                                if n != name {
+                                    continue;
+                                }
+                            }
+                            let joined = doc_join(name, CB_PARENT);
+                            let mut parts = vec![
+                                format!("cwd={}", cwd),
+                                format!("bc={}", bc),
+                                format!("bl={}", bl),
+                                format!("v={}", hook_and_disk(&base, name)),
+                                format!("vj={}|{}", pct(joined.as_bytes()), hook_and_disk(&base, &joined)),
+                            ];
+                            for (i, (form, src)) in FORMS.iter().enumerate() {
+                                parts.push(format!("{}={}", form, run_form(&envs[i], form, src, name)));
+                            }
+                            for (i, form) in ["ar", "arr"].iter().enumerate() {
+                                let r = match guarded(|| match reloaders[i].acquire_env() {
+                                    Ok(env) => run_form(&env, "get", "", name),
+                                    Err(e) => classify_err(&e),
+                                }) {
+                                    Ok(r) => r,
+                                    Err(m) => format!("panic:{}", pct(m.as_bytes())),
+                                };
+                                parts.push(format!("{}={}", form, r));
+                            }
+                            writeln!(out, "lc {} {} {} {}\t{}", scn, phase, sp, pct(name.as_bytes()), parts.join(";")).unwrap();
+                        }
+                        let mut rows: Vec<String> = envs[0]
+                            .templates()
+                            .map(|(n, t)| format!("{}={}", pct(n.as_bytes()), classify_text(t.source(), false)))
+                            .collect();
+                        rows.sort();
+                        writeln!(out, "lct {} {} {}\t{}", scn, phase, sp, rows.join(";")).unwrap();
+                    }
+                    _ => unreachable!(),
+                }
+            }
+        }
+    }
+    std::env::set_current_dir(&t.p4).unwrap();
 }
 
 // ------------------------------------------------------------------------------------ names
@@ -529,6 +790,10 @@ fn main() {
                 idx += 1;
             }
             if k == 0 {
+                run_tl(&l, &mut out);
+                run_lifecycle(&t, &mut out, None);
+            }
+            if k == 0 {
                 // the std functions the model transcribes, outside the region `safe_join` reaches
                 for _ in 0..(if thorough { 40000 } else { 8000 }) {
                     let p = noise_name(&mut rng);
@@ -553,6 +818,19 @@ fn main() {
                 Some("sj") => run_sj(&arg(1), &String::from_utf8(arg(2)).unwrap()),
                 Some("push") => run_push(&arg(1), &arg(2)),
                 Some("comps") => describe(Path::new(OsStr::from_bytes(&arg(1)))),
+                Some("lc") => {
+                    // lc <scenario> <phase> <spelling> <name>: the whole scenario is replayed for that name
+                    let t = build_tree();
+                    let name = String::from_utf8(arg(4)).unwrap();
+                    let mut buf: Vec<u8> = vec![];
+                    run_lifecycle(&t, &mut buf, Some((f[1], f[3], &name)));
+                    let text = String::from_utf8_lossy(&buf).into_owned();
+                    let want = format!("lc {} {} {} ", f[1], f[2], f[3]);
+                    text.lines()
+                        .find(|l| l.starts_with(&want))
+                        .and_then(|l| l.split_once('\t').map(|x| x.1.to_string()))
+                        .unwrap_or_else(|| "bad-case".into())
+                }
                 Some("ld") => {
                     let t = build_tree();
                     let l = make_loaders(&t);
